@@ -1004,18 +1004,18 @@ def checks(h):
             h.count("program_ops_not_implemented", len(missing))
             h.notes.append("interpreter lacks: " + " ".join(sorted(missing)))
         h.hyp("op_random", random_op_recipes(), lambda r: run_op_recipe(h, r, "op_random"),
-              h.scale(1500, 20000), 1)
+              h.scale(700, 20000), 1)
         for salt, (steered, ib) in enumerate([(False, 64), (True, 64), (False, 32), (True, 32)]):
-            n = h.scale(300, 3000) if ib == 64 else h.scale(120, 1000)
+            n = h.scale(150, 3000) if ib == 64 else h.scale(60, 1000)
             lab = ("program_steered" if steered else "program") + ("_ib32" if ib == 32 else "")
             h.hyp(lab, program_recipes(steered, ib), lambda r, lab=lab: run_program(h, r, lab), n, 10 + salt)
         if "func.call" in ok:
             h.hyp("recursive", recursive_recipes(64), lambda r: run_program(h, r, "recursive"),
-                  h.scale(120, 1500), 20)
+                  h.scale(60, 1500), 20)
             h.hyp("recursive_ib32", recursive_recipes(32), lambda r: run_program(h, r, "recursive_ib32"),
-                  h.scale(40, 500), 21)
+                  h.scale(25, 500), 21)
         for i, r in enumerate(index_width_table()):
             if i % h.nshards == h.shard:
                 run_index_width(h, r, "index_width_table", distinct=True)
         h.hyp("index_width", index_width_recipes(), lambda r: run_index_width(h, r, "index_width"),
-              h.scale(80, 1000), 22)
+              h.scale(40, 1000), 22)
